@@ -790,7 +790,14 @@ class Run:
                                       f"{opkind}: output differs from a fresh object's", fp)
                     self._pending = pending
                 return exc, ret, out, "compiled-now"
-            self._after_compile(m, r, exc, aged, True)
+            if aged == r["mods"] and aged != EMPTY and not has_none(aged):
+                # the implicit compile went through (the object holds exactly the symbol the
+                # fresh object holds after the same failing call); it is the *rendering* that
+                # raised afterwards - e.g. Pillow refusing a degenerate shape at box size 1
+                self._after_compile(m, r, None, aged, True)
+                self.stats.inc("probe.render_failed_after_successful_lazy_compile")
+            else:
+                self._after_compile(m, r, exc, aged, True)
             return exc, ret, out, "aborted"
 
         # need in (no, unsure): a compile is not promised
